@@ -27,6 +27,9 @@
 //!  dict = `lookups:matches:` + `-` (no dictionary) or up to 2 looked-up items `item.sizebits.wordhex` joined by `+`)
 //! answer: `<0|1> <len> <len_x_code> <distance> <score> <num_digest> <buckets_digest>` | `panic`.
 //!
+//! Thorough tier only: the 2 GiB end-to-end witness of the cached-distance defect (`e2e_catable_2g`,
+//! quality 2, 3, 4 through `CompressorWriter` into a streaming decoder; ~11 s each).
+//!
 //! non-trivial case: `FindLongestMatch` returned true.
 use super::*;
 use brotli::enc::backward_references::HasherSearchResult;
@@ -226,7 +229,7 @@ fn judge(kind: &Kind, c: &FlmCase, stream: Option<(&[u8], usize)>, found: bool, 
     let cur_m = c.cur_ix & c.mask;
     let fam = match kind.family { Family::Basic { .. } => "basic", Family::Adv4 | Family::Adv8 => "adv", _ => "h9" };
     // the distance-cache entry taken without a window check (BasicHasher tries cache[0] first)
-    if out.distance > c.max_backward && out.len_x_code == 0 && c.cache[..4].iter().any(|&d| d as usize == out.distance) {
+    if !c.dict && out.distance > c.max_backward && out.len_x_code == 0 && c.cache[..4].iter().any(|&d| d as usize == out.distance) {
         return Some((format!("distance-beyond-max-backward:{}:{}", fam, c.cache_class), format!("distance {} > max_backward {}: the distance-cache entry was accepted without a window check (len {})", out.distance, c.max_backward, out.len)));
     }
     if out.distance <= c.max_backward {
@@ -311,7 +314,8 @@ fn gen_case(kind: &Kind, ctx: &Ctx, rng: &mut Rng, small_table: bool) -> (FlmCas
     let base: usize = if high { *rng.pick(&[1usize << 31, (1usize << 31) + (1 << 30), 0x8000_0000 - (1 << 16)]) } else { 0 };
     let base = base & !mask;
     let written = n;
-    let data = ring_view(&stream, written, lg, tail);
+    let mut stream = stream;
+    let mut data = ring_view(&stream, written, lg, tail);
     let htl = hash_type_len(kind);
     // current position
     let natural_len = rng.chance(7, 8);
@@ -319,6 +323,21 @@ fn gen_case(kind: &Kind, ctx: &Ctx, rng: &mut Rng, small_table: bool) -> (FlmCas
     let cur_local = if written > room + 1 { written - room - rng.below(((written - room).min(tail)) as u64) as usize } else { 0 };
     let cur_local = cur_local.min(written.saturating_sub(room));
     let cur_ix = base + cur_local;
+    // dictionary cases: half of them get (a prefix of) a real dictionary word at the current position
+    let dict = rng.chance(1, 3);
+    if dict && rng.chance(1, 2) {
+        let d = &kBrotliEncDictionary;
+        let wlen = rng.range(4, 24) as usize;
+        let nwords = 1usize << d.size_bits_by_length[wlen];
+        let idx = rng.below(nwords as u64) as usize;
+        let off = d.offsets_by_length[wlen] as usize + wlen * idx;
+        let keep = wlen - (rng.below(4) as usize).min(wlen - 4);
+        for k in 0..keep {
+            if cur_local + k < stream.len() { stream[cur_local + k] = d.data[off + k]; }
+        }
+        if cur_local + keep < stream.len() { stream[cur_local + keep] ^= 0x55; }
+        data = ring_view(&stream, written, lg, tail);
+    }
     let max_length = if natural_len { (written - cur_local).min(tail) } else { (1 + rng.below(8) as usize).min(written - cur_local) };
     let max_backward_limit = lgwin_window - 16;
     let max_backward = if rng.chance(7, 8) { cur_ix.min(max_backward_limit) } else { rng.below(cur_ix.min(size) as u64 + 1) as usize };
@@ -398,7 +417,6 @@ fn gen_case(kind: &Kind, ctx: &Ctx, rng: &mut Rng, small_table: bool) -> (FlmCas
     ctx.h.PrepareDistanceCache(&mut cache);
     let in_len = (*rng.pick(&[0usize, 0, 0, 1, 3, 4, 7])).min(max_length.saturating_sub(1));
     let in_score = *rng.pick(&[(30u64 * 8) * 8 + 100, 0, 2020, 100000]);
-    let dict = rng.chance(1, 3);
     let natural = natural_len && cache_class != "arbitrary";
     let lookups = *rng.pick(&[0usize, 0, 1, 127, 128, 1000]);
     let matches = *rng.pick(&[0usize, 0, 1, 7, 8]);
@@ -417,6 +435,83 @@ fn kind_block_bits(kind: &Kind) -> usize {
 /// only `params.num_last_distances_to_check` matters)
 fn build_light(kind: &Kind) -> UH {
     build(&kind.build)
+}
+
+
+// ---------------------------------------------------------------------------------------------
+// end-to-end witness of the cached-distance defect (thorough tier only: 2 GiB of input, ~11 s per quality)
+
+struct E2eGen { s: u64, pos: u64, rand_len: u64 }
+impl E2eGen {
+    fn byte(&mut self) -> u8 {
+        let b = if self.pos < self.rand_len {
+            if self.pos % 8 == 0 { self.s = self.s.wrapping_add(0x9E3779B97F4A7C15); }
+            let mut z = self.s;
+            z = (z ^ (z >> 30)).wrapping_mul(0xBF58476D1CE4E5B9);
+            z = (z ^ (z >> 27)).wrapping_mul(0x94D049BB133111EB);
+            z ^= z >> 31;
+            (z >> (8 * (self.pos % 8))) as u8
+        } else {
+            ((self.pos % 16) as u8).wrapping_mul(17).wrapping_add(1)
+        };
+        self.pos += 1;
+        b
+    }
+}
+struct E2eCheck { g: E2eGen, bad: Option<u64>, n: u64 }
+impl std::io::Write for E2eCheck {
+    fn write(&mut self, buf: &[u8]) -> std::io::Result<usize> {
+        for &b in buf {
+            let e = self.g.byte();
+            if b != e && self.bad.is_none() { self.bad = Some(self.n); }
+            self.n += 1;
+        }
+        Ok(buf.len())
+    }
+    fn flush(&mut self) -> std::io::Result<()> { Ok(()) }
+}
+
+/// catable stream, lgwin 10: 2 147 483 700 non-repeating bytes (no copy is ever accepted, the distance
+/// cache keeps the catable placeholder 0x7ffffff0), then a 16-byte pattern: before the fix the
+/// single-slot match finder took the placeholder as a distance once positions passed 2 GiB
+fn e2e_catable_2g(quality: i32) -> Result<(), String> {
+    use std::io::Write;
+    let rand_len: u64 = 2_147_483_700;
+    let total: u64 = rand_len + 2_000_000;
+    let r = catch_unwind(AssertUnwindSafe(|| -> Result<(), String> {
+        let mut params = brotli::enc::BrotliEncoderParams::default();
+        params.quality = quality;
+        params.lgwin = 10;
+        params.catable = true;
+        params.appendable = true;
+        params.use_dictionary = false;
+        let check = E2eCheck { g: E2eGen { s: 1, pos: 0, rand_len }, bad: None, n: 0 };
+        let dec = brotli_decompressor::DecompressorWriter::new(check, 1 << 16);
+        let mut enc = brotli::CompressorWriter::with_params(dec, 1 << 16, &params);
+        let mut g = E2eGen { s: 1, pos: 0, rand_len };
+        let mut buf = vec![0u8; 1 << 20];
+        let mut done = 0u64;
+        while done < total {
+            let n = ((total - done) as usize).min(buf.len());
+            for x in buf[..n].iter_mut() { *x = g.byte(); }
+            enc.write_all(&buf[..n]).map_err(|e| format!("write error at input offset {}: {}", done, e))?;
+            done += n as u64;
+        }
+        enc.flush().map_err(|e| format!("flush error: {}", e))?;
+        let dec = enc.into_inner();
+        match dec.into_inner() {
+            Ok(c) => {
+                if let Some(b) = c.bad { return Err(format!("decoded byte {} differs from the input", b)); }
+                if c.n != total { return Err(format!("decoded {} of {} bytes", c.n, total)); }
+                Ok(())
+            }
+            Err(_) => Err("the decoder rejected the stream".to_string()),
+        }
+    }));
+    match r {
+        Ok(x) => x,
+        Err(_) => Err("panic inside the encoder".to_string()),
+    }
 }
 
 pub fn run(args: &Args) {
@@ -467,8 +562,8 @@ pub fn run(args: &Args) {
         let big = kind.table_bytes > (4 << 20);
         let mid = kind.table_bytes > (600 << 10);
         let small_table = kind.table_bytes < (64 << 10);
-        let ncases = (if big { 150 } else if mid { 1200 } else { 6000 }) * scale;
-        let ncorr = (if big { 6 } else if mid { 30 } else { 150 }) * scale.min(3);
+        let ncases = (if big { 500 } else if mid { 4000 } else { 18000 }) * scale;
+        let ncorr = (if big { 6 } else if mid { 40 } else { 200 }) * scale.min(3);
         let every = (ncases / ncorr).max(1);
         let mut ctx = Ctx::new(&kind);
         for ci in 0..ncases {
@@ -516,6 +611,21 @@ pub fn run(args: &Args) {
             let c = per_sig.entry(v.signature.clone()).or_insert(0);
             *c += 1;
             if *c <= 2 { rep.violations.push(v); }
+        }
+    }
+    if thorough {
+        let res = par_tasks(3, |i| (i as i32 + 2, e2e_catable_2g(i as i32 + 2)));
+        for (q, r) in res {
+            rep.evaluations += 1;
+            rep.count("e2e.catable_2g");
+            match r {
+                Ok(()) => rep.nontrivial += 1,
+                Err(what) => rep.violation(
+                    "flm:e2e-catable-beyond-2g",
+                    &format!("quality {} lgwin 10 catable, 2 147 483 700 non-repeating bytes + 2 000 000 bytes of a 16-byte pattern: {}", q, what),
+                    format!("{{\"quality\": {}, \"lgwin\": 10, \"catable\": true, \"generator\": \"hasher_flm.rs E2eGen\"}}", q),
+                ),
+            }
         }
     }
     corr.finish();
